@@ -1,7 +1,7 @@
 """C01 – first matching categorizing rule decides merchant, category and subcategory (spec module Engine)."""
 import core
 import tlc
-from props import engine_common
+from props import engine_common, engine_tracecheck
 
 
 def run(ck):
@@ -18,4 +18,6 @@ def run(ck):
                         'settings (quick) and <= 3 rules over 4 plain conditions (thorough), each against all 36 transactions of the '
                         'universe, through parse_merchants().match, get_all_rules()+normalize_merchant, and the legacy CSV loop when '
                         'expressible; canonical plus one random surface variant. non-trivial = at least two rules match')
+    # code -> spec: random files over the full concrete grammar, recorded from the real code, validated by Trace_Engine
+    engine_tracecheck.run(ck, 'c01', 1600 if quick else 16000)
     ck.exhaustive = True
